@@ -36,6 +36,9 @@ def explicit_panics(body, _depth=0, idx_param=None):
         if n in PANICS or n.startswith("core::panicking::assert_failed"):
             if bb in dbg:
                 continue
+            from implied import infeasible
+            if infeasible(body, bb):
+                continue      # a defensive assertion implied by the checks that dominate it: no failing edge
             out.append(bb)
         elif t.get("local_key") and bb not in dbg and _depth < 3 and (t.get("target") is None or (t["local_key"] not in anchors(body.facts) and body.facts.bodies.get(t["local_key"]) is not None and body.facts.bodies[t["local_key"]].j["kind"] != "closure"
                                                                                                      and (_depth > 0 or idx_param is None or any(strip_refs(body.origin_operand(a)) == ("param", idx_param) for a in t["args"])))):
@@ -109,6 +112,10 @@ def rule_validate_before_mutate(ctx, rule="C07-order"):
                                 okb = True
                     if fn == "repr::Repr::truncate" and not okb:
                         okb = any(g[0] == "cmp2" and ((g[1] == "Ge" and strip_refs(g[2]) == ("param", ip) and describe(b, g[3]) == "repr::Repr::len(p1)") or (g[1] == "Le" and strip_refs(g[3]) == ("param", ip) and describe(b, g[2]) == "repr::Repr::len(p1)")) for g in gs)
+                    if fn == "repr::Repr::truncate" and not okb:
+                        # ... or len == 0, where every new_len is >= len
+                        okb = any((g[0] == "pred" and g[1] in ("repr::Repr::is_empty",) and g[3] is True and describe(b, g[2]) == "p1") or
+                                  (g[0] == "cmp" and (g[2], g[3]) == (0, 0) and describe(b, g[1]) == "repr::Repr::len(p1)") for g in gs)
                     ctx.ob(rule, fn, "ok-return-after-check:line-ord%d" % _ok_ord(b, bb), okb, line=s.get("line", 0), how="Ok result only after the index check passed",
                            detail="%s can return Ok without `self.as_str().is_char_boundary(idx)` having been evaluated: an index String rejects (past the end / inside a character) is accepted on that path" % fn)
         if fn == "repr::Repr::truncate":
@@ -155,10 +162,12 @@ def rule_wrappers(ctx, rule="C07-wrap"):
             continue
         effs = effect_blocks(b)
         names = [n for _, n in effs]
-        ctx.ob(rule, w, "only-effect-is-delegate", names == [tgt], how="only effect: %s" % tgt, detail="%s has effects %s (expected only the call to %s)" % (w, names, tgt))
+        # (or the call to a sibling wrapper of the same operation: try_insert -> try_insert_str)
+        sib = [w2 for w2, t2 in pairs.items() if t2 == tgt and w2 != w]
+        ctx.ob(rule, w, "only-effect-is-delegate", names == [tgt] or (len(names) == 1 and names[0] in sib), how="only effect: %s" % tgt, detail="%s has effects %s (expected only the call to %s)" % (w, names, tgt))
         # the index argument is passed through unchanged
         for bb, t in b.calls():
-            if callee_name(t) == tgt:
+            if callee_name(t) == tgt or callee_name(t) in sib:
                 idx = strip_refs(b.origin_operand(t["args"][1]))
                 ctx.ob(rule, w, "index-passthrough", idx == ("param", 2), how="index argument forwarded unchanged", detail="%s forwards index %s" % (w, describe(b, idx)))
 
